@@ -188,7 +188,7 @@ type Error struct {
 }
 
 func (e Error) Exists() bool {
-	return e.Code != 0
+	return e.Code != 0 || e.Message != ""
 }
 
 func (e Error) Error() string {
@@ -406,6 +406,10 @@ func (c *Client) Hash(ctx context.Context, url string, n uint64) ([]byte, error)
 	}
 	if hresp.Header == nil {
 		return nil, fmt.Errorf("rpc=eth_getBlockByNumber/hash missing block %d", n)
+	}
+	if uint64(hresp.Number) != n {
+		const tag = "rpc=eth_getBlockByNumber/hash requested %d got %d"
+		return nil, fmt.Errorf(tag, n, hresp.Number)
 	}
 	return hresp.Hash, nil
 }
